@@ -345,6 +345,28 @@ def run_enum(shard: dict, res: Res) -> None:
                     stmt = render(m, shape, "", name, "lower")
                     judge(res, supported, m, shape, "", v, stmt, f"*=0x008000\n.macro zmq({name}) {{\n{stmt}{tail_}\n}}\nzmq({v:#x})\n", key_of(m, shape, "", v), True)
                     res.count("mnemonic_like_name_cases")
+        # an unsuffixed operand naming a label defined further down, from code in another bank than 00: refused, or encoded with the width of
+        # the value the label really has (the label's value follows from the bytes that were emitted)
+        for shape in ("dir", "dir_x", "lng", "ind"):
+            isa_shape = SHAPE_BY_NAME[shape][2]
+            for org_ in (0x018000, 0x82FFF0):
+                if shape == "dir" and m in UNJUDGED_PLAIN:
+                    continue          # relative branches are C05's
+                stmt = render(m, shape, "", "zfwd", "lower")
+                src = f"*={org_:#08x}\n{stmt}\nzfwd:\n.db 0\n"
+                r5 = assemble(src)
+                res.evals += 1
+                res.count("forward_label_operand_cases")
+                if r5.ok:
+                    res.distinct_count += 1
+                    got5 = b"".join(bytes(b) for _, b in r5.blocks)[:-1]
+                    val = dict(r5.labels).get("zfwd")
+                    exp5 = isa.encode(m, isa_shape, isa.natural_width(val), val) if val is not None else None
+                    wit5 = {"m": m, "shape": shape, "suffix": "", "value": val, "stmt": stmt, "src": src, "forward": True}
+                    if exp5 is None:
+                        res.violate("undefined-accepted", f"`{stmt}` with zfwd = {val!r} defined further down assembled to {got5.hex()} although the ISA defines no such instruction for that value", wit5)
+                    elif got5 != exp5:
+                        res.violate("wrong-operand-bytes" if got5[:1] == exp5[:1] else "wrong-opcode-byte", f"`{stmt}` with zfwd = {val:#x} defined further down assembled to {got5.hex()}, the ISA says {exp5.hex()}", wit5)
         # an explicit size suffix truncates the operand to that size also when the operand is a label of another bank (a mirror of the
         # same ROM bank, code that runs from RAM): jsr.w / jmp.w / lda.w to such a label keep assembling
         for shape in ("dir", "dir_x", "dir_y", "ind", "x_ind", "imm"):
@@ -461,6 +483,16 @@ def run_shard(shard: dict) -> Res:
 
 def replay(w: dict) -> Res:
     res = Res()
+    if w.get("forward"):
+        r5 = assemble(w["src"])
+        res.case(w["src"], True)
+        if r5.ok:
+            val = dict(r5.labels).get("zfwd")
+            exp5 = isa.encode(w["m"], SHAPE_BY_NAME[w["shape"]][2], isa.natural_width(val), val)
+            got5 = b"".join(bytes(b) for _, b in r5.blocks)[:-1]
+            if exp5 is None or got5 != exp5:
+                res.violate("forward-label-operand", f"`{w['stmt']}` with zfwd = {val:#x}: {got5.hex()} vs ISA {(exp5 or b'').hex() or 'undefined'}", w)
+        return res
     if w.get("other_bank"):
         exp = isa.encode(w["m"], SHAPE_BY_NAME[w["shape"]][2], w["suffix"], w["value"])
         r4 = assemble(w["src"])
